@@ -1,3 +1,72 @@
-import GoldilocksVerif.Model.Ntt
+/-
+  C05 — "For all power-of-two sizes N <= N_ext, all column counts, phase and block settings, thread counts and with or
+  without scratch buffer, extendPol delivers out[k][c] = f_c(g*w_Next^k) for k < N_ext, where f_c is the unique polynomial
+  of degree < N with f_c(w_N^j) = in[j][c] and g = 7 is the library's coset shift. Output and input may be the same buffer
+  of N_ext rows."
+
+  Statements about the hand model `Model/Ntt.lean` (see Props/C03.lean for the scope: all shapes, all inputs; thread count
+  and caller scratch buffer are outside the sequential model; model = code for log2 n ≤ 30).
+  A polynomial of degree < N is its coefficient vector `f : Nat → F`; its value at `z` is `∑ i < N, f i * z^i`.
+-/
+import GoldilocksVerif.Lemmas.NttTop
+
 namespace GoldilocksVerif.C05
+open GoldilocksVerif.Model.Ntt GoldilocksVerif.NttSpec Finset
+
+/-- the library's coset shift is 7 -/
+theorem C05_shift_is_seven : den Gen.Scalar.shift__r = 7 := den_shift
+
+/-- C05 (uniqueness half): two polynomials of degree < N = 2^dn that agree on all N-th roots of unity `w_N^j` have the
+    same coefficients — "the unique polynomial of degree < N with f(w_N^j) = in[j]" is well defined -/
+theorem C05_interpolant_unique (dn : Nat) (hdn : dn ≤ 32) (f g : Nat → F)
+    (h : ∀ j, j < 2 ^ dn → ∑ i ∈ range (2 ^ dn), f i * (omega dn ^ j) ^ i = ∑ i ∈ range (2 ^ dn), g i * (omega dn ^ j) ^ i) :
+    ∀ i, i < 2 ^ dn → f i = g i := by
+  intro i hi
+  have h1 := (lde_welldef (omega_prim dn hdn) (two_pow_ne_zero dn) (fun j => evalPoly (2 ^ dn) g (omega dn ^ j)) f).mp
+    (fun j hj => h j hj) i hi
+  have h2 := (lde_welldef (omega_prim dn hdn) (two_pow_ne_zero dn) (fun j => evalPoly (2 ^ dn) g (omega dn ^ j)) g).mp
+    (fun j _ => rfl) i hi
+  rw [h1, h2]
+
+/-- C05 (main statement): `extendPol` never aborts and, for every column `c`, there is a polynomial `f` of degree < N
+    interpolating the input column on the N-th roots of unity such that the output column is `f` on the coset `7·w_Next^k`.
+    `same = true`: output and input are the same buffer of N_ext rows. -/
+theorem C05_extendPol (maxDomainSize extension : Nat) (o : Obj) (hobj : mkObj maxDomainSize extension = some o)
+    (hext : extension ≤ 1) (dn de : Nat) (hn : 2 ^ dn ≤ maxDomainSize) (hne : dn ≤ de) (hde : de ≤ 32)
+    (ncols nphase nblock : Nat) (hnc : 1 ≤ ncols) (same : Bool) (outB inB : Buf)
+    (hin : inB.size = (if same then 2 ^ de else 2 ^ dn) * ncols) (hout : same = false → outB.size = 2 ^ de * ncols) :
+    ∃ o' out, extendPol o same outB inB (2 ^ de) (2 ^ dn) ncols nphase nblock = .ok (o', out) ∧
+      out.size = 2 ^ de * ncols ∧
+      ∀ c, c < ncols → ∃ f : Nat → F,
+        (∀ j, j < 2 ^ dn → ∑ i ∈ range (2 ^ dn), f i * (omega dn ^ j) ^ i = den (inB.getD (j * ncols + c) 0#64)) ∧
+        (∀ k, k < 2 ^ de →
+          den (out.getD (k * ncols + c) 0#64) = ∑ i ∈ range (2 ^ dn), f i * (7 * omega de ^ k) ^ i) := by
+  have hm : maxDomainSize ≠ 0 := by have := Nat.two_pow_pos dn; omega
+  have hO := mkObj_ok maxDomainSize extension o hm hext hobj
+  have hd : dn ≤ log2 maxDomainSize := (Nat.le_log2 hm).mpr hn
+  have hd32 : dn ≤ 32 := Nat.le_trans hd hO.dle
+  have hsz : (if same then inB else outB).size = 2 ^ de * ncols := by
+    cases same
+    · exact hout rfl
+    · simpa using hin
+  obtain ⟨o', out, e, s, _, _, c⟩ := extendPol_spec o _ hO same outB inB dn de ncols nphase nblock hd hne hde hnc
+    (by rw [hsz])
+  refine ⟨o', out, e, by rw [s, hsz], ?_⟩
+  intro col hcol
+  refine ⟨idft (omega dn) (2 ^ dn) (fun j => cell inB ncols j col), ?_, ?_⟩
+  · intro j hj
+    have := (lde_welldef (omega_prim dn hd32) (two_pow_ne_zero dn) (fun j => cell inB ncols j col)
+      (idft (omega dn) (2 ^ dn) (fun j => cell inB ncols j col))).mpr (fun _ _ => rfl) j hj
+    exact this
+  · intro k hk
+    exact c k col hk hcol
+
+/-- non-vacuity: the hypotheses are satisfiable (N = 4, N_ext = 16 on an object of size 8, in place on 16 rows) -/
+example : ∃ o o' out, mkObj 8 1 = some o ∧
+    extendPol o true #[] (Array.replicate (2 ^ 4 * 2) 3#64) (2 ^ 4) (2 ^ 2) 2 3 1 = .ok (o', out) := by
+  obtain ⟨o, ho⟩ := mkObj_some 8 1 (by decide)
+  obtain ⟨o', out, e, _⟩ := C05_extendPol 8 1 o ho (by omega) 2 4 (by omega) (by omega) (by omega) 2 3 1 (by omega) true #[]
+    (Array.replicate (2 ^ 4 * 2) 3#64) (by simp) (by simp)
+  exact ⟨o, o', out, ho, e⟩
+
 end GoldilocksVerif.C05
